@@ -243,6 +243,9 @@ type friendly struct {
 	IDs   [][20]byte
 	// Value, if set, is an encoded immutable BEP 44 value every node holds: get replies carry it
 	Value string
+	// Mapped: the nodes are known by the 16-byte (v4-mapped) form of their IPv4 address and name each
+	// other in nodes6 in that form, as a dual-stack peer does
+	Mapped bool
 }
 
 func friendlyAddr(i int) *net.UDPAddr {
@@ -276,6 +279,15 @@ func addFriendlyNet(n1 *SimNet, n int, silent func(i int, q SimQuery) bool) *fri
 				}
 				tok := fmt.Sprintf("ftok%d", i)
 				r := stdReturn(f.IDs[i], cs, &tok)
+				if f.Mapped {
+					var b []byte
+					for _, c := range cs {
+						b = append(b, c.ID[:]...)
+						b = append(b, c.Addr.IP.To16()...)
+						b = append(b, byte(c.Addr.Port>>8), byte(c.Addr.Port))
+					}
+					r = r.Del("nodes").Set("nodes6", bstr(string(b)))
+				}
 				if f.Value != "" && q.Method == "get" {
 					v, _, _ := refmodel.Parse([]byte(f.Value))
 					r = r.Set("v", v)
